@@ -691,6 +691,11 @@ class Interp:
         if isinstance(c, bool):
             return self.ev(e.body if c else e.orelse, fr)
         if fr.spec is not None or (self.pure_expr(e.body) and self.pure_expr(e.orelse)):
+            # a condition decided by the path condition is resolved here (keeps terms free of dead branches)
+            if not self.run.feasible(z3.Not(c)):
+                return self.ev(e.body, fr)
+            if not self.run.feasible(c):
+                return self.ev(e.orelse, fr)
             a = self.ev_guarded(e.body, fr, c)
             b = self.ev_guarded(e.orelse, fr, NOT(c))
             return self.run.ite(c, a, b)
@@ -967,6 +972,8 @@ class Interp:
         zi, zn = b2i(z(i)), b2i(z(n))
         if isinstance(i, int):
             j = zn + i if i < 0 else zi
+        elif not run.feasible(zi < 0):
+            j = zi                      # provably non-negative under the path condition: no wrap-around term
         else:
             j = z3.If(zi < 0, zi + zn, zi)
         run.oblige("%s-in-range@%s" % (what, getattr(node, "lineno", "?")), z3.And(j >= 0, j < zn), kind="safety",
@@ -977,9 +984,9 @@ class Interp:
         run = self.run
         if isinstance(base, SOpt):
             base = run.unopt(base, "subscripted value")
-        if isinstance(base, tuple):
-            if tag(base) == "ghostns":
-                raise Unsupported("ghost subscript")
+        if tag(base) == "ghostns":
+            raise Unsupported("ghost subscript")
+        if isinstance(base, tuple) and not isinstance(base, T):
             if isinstance(idx, int):
                 try:
                     return base[idx]
